@@ -449,6 +449,9 @@ impl<T: RealNumber + ScalarOperand + AddAssign + SubAssign + MulAssign + DivAssi
     }
 
     fn max_diff(&self, other: &Self) -> T {
+        if self.shape() != other.shape() {
+            panic!("Can't compare matrices of different sizes.");
+        }
         let mut max_diff = T::zero();
         for r in 0..self.nrows() {
             for c in 0..self.ncols() {
